@@ -1,5 +1,15 @@
 package dsim
 
+import (
+	"fmt"
+	"io"
+	"strings"
+	"sync"
+
+	"github.com/fiorix/go-diameter/v4/diam"
+	"github.com/fiorix/go-diameter/v4/diam/datatype"
+)
+
 // C08, C09, C15, C16 (TCP-like half): scenarios over the server world.
 
 var srvReal = []string{"diam.Server.Serve accept loop", "conn.serve, bufio.Reader, liveSwitchReader, response.Write", "ServeMux dispatch", "diam.NewConn (dialled connections)", "Message.Answer / WriteTo", "ReadMessage and both buffer pools"}
@@ -83,10 +93,11 @@ func init() {
 				newSrvWorld(e, cfg).run()
 			}},
 			{Name: "sctp-faults", Weight: 1, Bubble: true, Run: c15Sctp},
+			{Name: "fault-while-a-write-is-stuck", Weight: 1, Bubble: true, Run: c15StuckWrite},
 			{Name: "sweep-placement", Bubble: true, Run: c15Sweep, SweepN: c15SweepN, QuickSweep: true, Exhaustive: true,
 				SweepNote: "3 connections x 3 requests; one fault of each of 12 kinds (handler panic, reset mid-message, 10 kinds of undecodable message) at every (connection, position), with 0 or 3 temporary accept errors first; the delivery/release schedule of each case is seeded: 288 cases"},
 		},
-		MustProbes: []string{"late-connection", "malformed-reported", "recovered-panic-logged", "runtime-registration", "sctp-read-error", "long-accept-error-run", "default-serve-mux", "tls-handshake-stalled"},
+		MustProbes: []string{"late-connection", "malformed-reported", "recovered-panic-logged", "runtime-registration", "sctp-read-error", "long-accept-error-run", "default-serve-mux", "tls-handshake-stalled", "fault-with-stuck-write"},
 	})
 }
 
@@ -216,4 +227,137 @@ func c08Sweep(e *Env) {
 	e.NonTrivial()
 	cfg := srvCfg{prop: "C08", nConns: 2, msgsPer: [2]int{2, 2}, sched: sched, parkMask: k % 16}
 	newSrvWorld(e, cfg).run()
+}
+
+// c15StuckWrite: a message is being written to connection A from a goroutine that is not A's
+// serving goroutine (a relay forwarding to A) and is stuck because A's peer does not read.
+// Then A suffers a fault (undecodable input, a read error, or a panic in its handler). A must
+// be closed and reported like any faulty connection, the stuck writer must get its error, and
+// the listener and the other connections must go on.
+func c15StuckWrite(e *Env) {
+	t := e.T
+	e.TrustWait = false
+	lis := newSimListener(e)
+	mux := diam.NewServeMux()
+	var mu sync.Mutex
+	conns := map[string]diam.Conn{}
+	handled := map[string]int{}
+	fault := []string{"undecodable", "read-error", "panic"}[t.Draw(3)]
+	mux.HandleFunc("ALL", func(c diam.Conn, m *diam.Message) {
+		who := "?"
+		if len(m.AVP) > 0 {
+			who = string(m.AVP[0].Data.Serialize())
+		}
+		mu.Lock()
+		conns[who[:1]] = c
+		handled[who]++
+		mu.Unlock()
+		if who == "A-boom" {
+			e.Fault("handler-panic")
+			panic(fmt.Errorf("sim: handler panic while a forward is pending"))
+		}
+		if strings.HasPrefix(who, "B") || strings.HasPrefix(who, "C") {
+			a := m.Answer(2001)
+			a.NewAVP(avpSimOctets, 0, 0, datatype.OctetString(who))
+			a.WriteTo(c)
+		}
+	})
+	srv := &diam.Server{Handler: mux, Dict: simDict()}
+	serveRet := make(chan error, 1)
+	go func() { serveRet <- srv.Serve(lis) }()
+	mk := func(name string, port int) *SimConn {
+		sc := newSimConn(e, name, drawAddr(t, 3868), drawAddr(t, port))
+		lis.Connect(sc)
+		return sc
+	}
+	req := func(tag string, hbh uint32) []byte {
+		return RefMsg{Cmd: 900, Flags: 0x80, HbH: hbh, E2E: hbh, AVPs: []RefAVP{{Code: avpSimOctets, Data: []byte(tag)}}}.Bytes()
+	}
+	a, b := mk("A", 41001), mk("B", 41002)
+	defer func() {
+		for _, sc := range []*SimConn{a, b} {
+			sc.Resume()
+			sc.EndRead(io.EOF, false)
+		}
+		lis.Close()
+		e.Quiesce()
+	}()
+	a.Deliver(req("A-hello", 1))
+	b.Deliver(req("B-hello", 2))
+	e.Quiesce()
+	mu.Lock()
+	ca := conns["A"]
+	mu.Unlock()
+	if ca == nil || len(b.Written()) == 0 {
+		e.Fail("C15/message-not-dispatched", "two healthy connections: the first requests were not served")
+		return
+	}
+	// the forward to A gets stuck in the transport
+	fwd := diam.NewMessage(901, diam.RequestFlag, 0, 500, 500, simDict())
+	fwd.NewAVP(avpSimOctets, 0, 0, datatype.OctetString(marker(0, 0, t.Range(10, 3000), 7)))
+	a.ArmWriteFault(&WriteFault{Kind: "stall", After: t.Range(0, 40)})
+	type res struct {
+		n   int64
+		err error
+	}
+	done := make(chan res, 1)
+	go func() { n, err := fwd.WriteTo(ca); done <- res{n, err} }()
+	e.Quiesce()
+	if !a.Stalled() {
+		e.Harness("the forward did not reach the transport")
+	}
+	e.Probe("fault-with-stuck-write")
+	e.NonTrivial()
+	// ... and now A fails
+	switch fault {
+	case "undecodable":
+		bad := RefMsg{Cmd: 7777, Flags: 0x80, HbH: 9, E2E: 9, AVPs: []RefAVP{{Code: avpSimOctets, Data: []byte("A-bad")}}}
+		a.Deliver(bad.Bytes())
+		e.Fault("malformed:unknown-command")
+	case "read-error":
+		a.EndRead(errSimReset, true)
+		e.Fault("rst-mid-message")
+	case "panic":
+		a.Deliver(req("A-boom", 3))
+	}
+	e.Act("fault", "%s on A while a write to A is stuck", fault)
+	e.Quiesce()
+	if !a.Closed() {
+		e.Fail("C15/faulty-connection-not-closed", "connection A met a fault (%s) while a write to it from another goroutine was stuck in the transport: the library did not close A", fault)
+		return
+	}
+	select {
+	case r := <-done:
+		if r.err == nil {
+			e.Fail("C15/stuck-write-reported-success", "the transport of A was closed under a stuck write, which then reported success (n=%d)", r.n)
+			return
+		}
+	default:
+		e.Fail("C15/stuck-write-never-returned", "A was closed after its fault; the write that was stuck on it has not returned")
+		return
+	}
+	if fault == "undecodable" {
+		select {
+		case <-mux.ErrorReports():
+		default:
+			e.Fail("C15/no-error-report/unknown-command", "undecodable input closed connection A and no ErrorReport was offered")
+			return
+		}
+	}
+	// the others go on: B is still served, a new connection is accepted and served
+	before := len(b.Written())
+	b.Deliver(req("B-again", 4))
+	c := mk("C", 41003)
+	defer func() { c.EndRead(io.EOF, false) }()
+	c.Deliver(req("C-hello", 5))
+	e.Quiesce()
+	if len(b.Written()) == before || len(c.Written()) == 0 {
+		e.Fail("C15/message-not-dispatched", "after the fault on A (%s): B answered=%v, the new connection C answered=%v", fault, len(b.Written()) != before, len(c.Written()) != 0)
+		return
+	}
+	select {
+	case err := <-serveRet:
+		e.Fail("C15/serve-returned", "Server.Serve returned %v while the listener was open", err)
+	default:
+	}
 }
